@@ -1079,19 +1079,102 @@ func runC07(c *Ctx) {
 		c.ob("C07-R11", fnKey(ad)+"#defaults-applied-at-every-nesting-level", ad.Pos(), rec, "ApplyTypeDefaults fills absent fields of the top-level object only and never comes back to itself for a field whose type is another type definition: validation treats the nested type's defaulted fields as optional, so the request is accepted and the body sees them absent")
 	}
 
+	c.rule("C07-R15", "ORD/def-use: what is validated is what the body gets: in every function that both fills in defaults (ApplyTypeDefaults) and validates (ValidateObjectAgainstTypeDef) for the same declared type, the object handed to the validator derives from the result of the defaults step - a default is an expression (`= query.max`, a constant, a call) and its value is input like any other: validated before the defaults are filled in, it reaches the body unchecked. And the query string is cut at `&` and `=` before its parts are percent-decoded: url.QueryUnescape / PathUnescape in the query parser is applied to a part (something cut out of the raw text), never to the raw text itself - decoding first turns an encoded %26 or %3D inside a value into a separator")
+	{
+		n := 0
+		for _, rel := range []string{interpPkg, glyphCmd} {
+			for _, fn := range c.srcFuncs(rel) {
+				var defaults []*ssa.Call
+				eachInstr(fn, func(_ *ssa.BasicBlock, _ int, ins ssa.Instruction) {
+					if cl, ok := ins.(*ssa.Call); ok && callName(cl) == interpPath+".Interpreter.ApplyTypeDefaults" {
+						defaults = append(defaults, cl)
+					}
+				})
+				if len(defaults) == 0 {
+					continue
+				}
+				k := 0
+				eachInstr(fn, func(_ *ssa.BasicBlock, _ int, ins ssa.Instruction) {
+					cl, ok := ins.(*ssa.Call)
+					if !ok || callName(cl) != interpPath+".TypeChecker.ValidateObjectAgainstTypeDef" || len(cl.Call.Args) < 2 {
+						return
+					}
+					k++
+					n++
+					fromDefaults := derivesFrom(cl.Call.Args[1], func(v ssa.Value) bool {
+						for _, d := range defaults {
+							if v == ssa.Value(d) {
+								return true
+							}
+							if e, ok := v.(*ssa.Extract); ok && e.Tuple == ssa.Value(d) {
+								return true
+							}
+						}
+						return false
+					})
+					c.ob("C07-R15", fnKey(fn)+"#validates-the-defaulted-object-"+itoa(k), cl.Pos(), fromDefaults, "the object handed to the validator is not the one the defaults were filled into: a default that is an expression (`limit: int = query.max`) is bound into the input without ever being checked against the field's type, and the body runs on `limit = \"lots\"`")
+				})
+			}
+		}
+		c.Sites["C07-R15#validate-after-defaults"] = n
+		// unescape after cutting
+		nu := 0
+		for _, fn := range c.srcFuncs(interpPkg) {
+			if !strings.HasSuffix(c.Fset.Position(fn.Pos()).Filename, "/query_params.go") {
+				continue
+			}
+			k := 0
+			eachInstr(fn, func(_ *ssa.BasicBlock, _ int, ins ssa.Instruction) {
+				cl, ok := ins.(*ssa.Call)
+				if !ok || (callName(cl) != "net/url.QueryUnescape" && callName(cl) != "net/url.PathUnescape") {
+					return
+				}
+				k++
+				nu++
+				// the argument went through a cut: an element of a Split result, a Cut result, or a slice expression
+				cut := derivesFrom(cl.Call.Args[0], func(v ssa.Value) bool {
+					switch y := v.(type) {
+					case *ssa.Call:
+						switch callName(y) {
+						case "strings.Split", "strings.SplitN", "strings.Cut", "strings.SplitAfter", "strings.SplitAfterN", "strings.Fields", "strings.FieldsFunc":
+							return true
+						}
+					case *ssa.Slice:
+						return isStringType(y.X.Type())
+					}
+					return false
+				})
+				whole := false
+				if p, isP := cl.Call.Args[0].(*ssa.Parameter); isP && isStringType(p.Type()) {
+					whole = true
+				}
+				c.ob("C07-R15", fnKey(fn)+"#percent-decoding-after-the-cut-"+itoa(k), cl.Pos(), cut && !whole, "the query text is percent-decoded before it is cut at `&` and `=`: an encoded %26 or %3D inside a value becomes a separator - `?page=1%26x` runs the body with page=1 where a 400 is due, and `?q=a%26page%3Dabc&page=2` is refused although it conforms")
+			})
+		}
+		c.Sites["C07-R15#query-unescapes"] = nu
+		c.floor("C07-R15", 3)
+	}
+
 	c.rule("C07-R14", "SIB/EXH: every function of pkg/interpreter that follows a type to the type definition it names (asserts a Type to NamedType and looks the name up in typeDefs) in order to act on nested objects reaches that point through the same wrapper kinds the checker descends into - it (or the helper it recurses through) also has arms for OptionalType, ArrayType and GenericType. A walker that only follows bare names (a 'does this type declare defaults anywhere' shortcut) disagrees with the one that applies them through `T?`, `[T]` and `List[T]`, and the shortcut's answer switches the other off")
 	{
 		wrappers := []string{"OptionalType", "ArrayType", "GenericType"}
 		n := 0
-		for _, fn := range c.srcFuncs(interpPkg) {
-			if fn.Parent() != nil {
-				continue
-			}
+		r14fns := append(append([]*ssa.Function{}, c.srcFuncs(interpPkg)...), c.srcFuncs(glyphCmd)...)
+		for _, fn := range r14fns {
 			// follows a name to its definition?
 			follows := false
 			eachInstr(fn, func(_ *ssa.BasicBlock, _ int, ins ssa.Instruction) {
 				lk, ok := ins.(*ssa.Lookup)
-				if !ok || !(loadedFromField(lk.X, "Interpreter", "typeDefs") || loadedFromField(lk.X, "TypeChecker", "typeDefs")) {
+				if !ok {
+					return
+				}
+				isDefsTable := loadedFromField(lk.X, "Interpreter", "typeDefs") || loadedFromField(lk.X, "TypeChecker", "typeDefs")
+				if mt, isMap := lk.X.Type().Underlying().(*types.Map); isMap && !isDefsTable {
+					if nt := namedOf(derefPtr(mt.Elem())); nt != nil && nt.Obj().Name() == "TypeDef" {
+						isDefsTable = true // a table of type definitions handed in or captured
+					}
+				}
+				if !isDefsTable {
 					return
 				}
 				if derivesFrom(lk.Index, func(v ssa.Value) bool {
